@@ -21,7 +21,9 @@ from lib.tlc import run_tlc, require_ok, MachineryError
 
 PID = "C19"
 WORKER = os.path.join(common.VERIF, "lib", "history_worker.py")
-NASTY_HEADERS = ['"q', 'a"b', "x y", " lead", "trail ", "it's", "semi;colon", "com,ma", "pi|pe", "plain", "'s", '""', "é"]
+NASTY_HEADERS = ['"q', 'a"b', "x y", " lead", "trail ", "it's", "semi;colon", "com,ma", "pi|pe", "plain", "'s", '""', "é",
+                 # cleaning a header name (strip, then delete , ; | tab `) is not idempotent on these
+                 ", name", "end ;", "| p", "` tick", "t\t ab"]
 
 
 def run_process(d, steps):
